@@ -47,14 +47,36 @@ def gate_alphabet(n: int) -> list:
     return a
 
 
-def pseudo_alphabet(n: int) -> list:
+def pseudo_alphabet(n: int, full: bool = False) -> list:
+    """full: also single-qudit barriers and measurements of every subset."""
     a: list = []
-    for k in range(2, n + 1):
+    for k in range(1 if full else 2, n + 1):
         a += [['b', *t] for t in itertools.combinations(range(n), k)]
     a += [['m', q] for q in range(n)]
+    if full:
+        for k in range(2, n):
+            a += [['m', *t] for t in itertools.combinations(range(n), k)]
     a.append(['m', *range(n)])
     a += [['r', q] for q in range(n)]
     return a
+
+
+def sandwiches(n: int, lean: bool = False) -> list:
+    """gate, barrier-like, barrier-like, gate -- every such sequence over
+    the full alphabets: a bin that was closed on one qudit by the first
+    barrier-like operation and would grow, behind the second one, onto a
+    qudit that second one covers (QuickPartitioner's pending bins then wait
+    on each other; found by an outside random search on a 79-operation
+    circuit, minimal form 4 operations on 3 qudits)."""
+    g = gate_alphabet(n)
+    p = pseudo_alphabet(n, True)
+    if lean:
+        # multi-qudit gates around two barrier-like operations that share a
+        # qudit (the rest of the product is in the thorough tier)
+        g = [x for x in g if len(x) > 2]
+        return [[a, b, c, d] for a in g for b in p for c in p for d in g
+                if set(b[1:]) & set(c[1:])]
+    return [[a, b, c, d] for a in g for b in p for c in p for d in g]
 
 
 def sequences(n: int, maxlen: int, which: str) -> list:
@@ -284,6 +306,11 @@ def plan(ctx: Ctx) -> list:
     for n, ln in ((2, 2), (3, 2)) if q else ((2, 3), (3, 2), (4, 2)):
         items += _items('pseudo-others', n, sequences(n, ln, 'pseudo'),
                         stage_lists(OTHERS, n, top), seed)
+    # F2b: two barrier-like operations between two gates
+    for n in (3,) if q else (3, 4):
+        items += _items('pseudo-sandwich', n, sandwiches(n, q),
+                        stage_lists(['quick', 'single'] if q else AWARE,
+                                    n, top), seed)
     # F3: already-blocked input (pipelines of two partitioners)
     if q:
         items += _items('blocked-input', 3, sequences(3, 3, 'gates'),
@@ -372,7 +399,7 @@ def run(ctx: Ctx) -> None:
     ctx.max_reported = 20        # one line per distinct defect
     gc.collect()
     gc.freeze()                  # keep the forked workers' pages shared
-    budget = (75 if ctx.quick else 1500) * float(
+    budget = (110 if ctx.quick else 1500) * float(
         os.environ.get('VERIF_BUDGET_SCALE', '1'))   # development aid
     items = plan(ctx)
     litems = plan_long(ctx)
